@@ -98,14 +98,14 @@ let build kind elem path (rest : string list) : obj =
      | _ ->
        let data = List.map n_of_string (vals ()) in
        (if kind = "qwt256pfs" || kind = "qwt512pfs" then
-          (match qwt_pfs_new w data with Val p -> cur_pfs := Some p | Fault _ -> cur_pfs := None));
+          (* the constructor returns prefetch_support: None for the empty sequence *)
+          (match qwt_pfs_new w data with Val p -> cur_pfs := (if data = [] then None else Some p) | Fault _ -> cur_pfs := None));
        of_outcome (fun t -> Qwt (w, b, t)) (qwt_new w b data))
   | "hqwt256" | "hqwt512" | "hqwt256pfs" | "hqwt512pfs" | "hwt" ->
     (match path with
      | "default" ->
        if kind = "hwt" then of_outcome (fun t -> Wt (n_of_int (width_of elem), true, t)) (wt_build (n_of_int (width_of elem)) true [] [])
-       else of_outcome (fun t -> Hq (n_of_int (width_of elem), n_of_int (if kind = "hqwt256" || kind = "hqwt256pfs" then 256 else 512), t))
-           (hq_build (n_of_int (if kind = "hqwt256" || kind = "hqwt256pfs" then 256 else 512)) [] [])
+       else Hq (n_of_int (width_of elem), n_of_int (if kind = "hqwt256" || kind = "hqwt256pfs" then 256 else 512), hq_default)
      | _ -> Pending (kind, elem, List.map n_of_string (vals ())))
   | "wt" ->
     let w = n_of_int (width_of elem) in
@@ -123,8 +123,8 @@ let build kind elem path (rest : string list) : obj =
     (match kind with
      | "bv" -> of_outcome (fun b -> Bv (false, b)) bvo
      | "bvm" -> of_outcome (fun b -> Bv (true, b)) bvo
-     | "rsn" -> of_outcome (fun b -> of_outcome (fun r -> Rsn r) (rsn_new b)) bvo
-     | "rsw" -> of_outcome (fun b -> of_outcome (fun r -> Rsw r) (rsw_new b)) bvo
+     | "rsn" -> if path = "default" then Rsn rsn_default else of_outcome (fun b -> of_outcome (fun r -> Rsn r) (rsn_new b)) bvo
+     | "rsw" -> if path = "default" then Rsw rsw_default else of_outcome (fun b -> of_outcome (fun r -> Rsw r) (rsw_new b)) bvo
      | _ ->
        let s0 = (kind = "darray1") in
        if is_pos then of_outcome (fun d -> Da (s0, d)) (da_from_positions s0 (List.map n_of_string (vals ())))
@@ -179,7 +179,7 @@ let resolve_pending (spec : string) : string =
              (match wt_build w true data table with Val t -> cur := Wt (w, true, t) | Fault e -> cur := Faulted e)
            else
              ((if kind = "hqwt256pfs" || kind = "hqwt512pfs" then
-                 (match hq_pfs_new data table with Val p -> cur_pfs := Some p | Fault _ -> cur_pfs := None));
+                 (match hq_pfs_new data table with Val p -> cur_pfs := (if data = [] then None else Some p) | Fault _ -> cur_pfs := None));
               match hq_build b data table with Val t -> cur := Hq (w, b, t) | Fault e -> cur := Faulted e));
           codes_string ctab))
   | _ -> "-"
@@ -462,14 +462,43 @@ let exec (toks : string list) : string =
     (match List.assoc_opt (n_of_int (int_of_string id)) (List.map (fun (a, b) -> (a, b)) all_schemas) with
      | None -> "-"
      | Some t ->
+       let hex_of out =
+         let b = Buffer.create (2 * nb) in
+         List.iter (fun x -> Buffer.add_string b (Printf.sprintf "%02x" (nlen_int x))) out;
+         "V" ^ string_of_int (List.length out) ^ ":" ^ Buffer.contents b in
        (match decode t bytes with
         | Some (v, []) ->
           let out = encode t v in
-          let b = Buffer.create (2 * nb) in
-          List.iter (fun x -> Buffer.add_string b (Printf.sprintf "%02x" (nlen_int x))) out;
-          "V" ^ string_of_int (List.length out) ^ ":" ^ Buffer.contents b ^ (if wt t v then "" else "!illtyped")
-        | Some (_, _ :: _) -> "Vtrailing-bytes"
-        | None -> "Vdecode-failed"))
+          if not (wt t v) then "Vschema-illtyped"
+          else if hex_of out <> "V" ^ string_of_int nb ^ ":" ^ hex then "Vschema-reencode-differs"
+          else begin
+            (* the model's own internal state, encoded with the same schema *)
+            let st : value option = match !cur with
+              | Qv q -> Some (qv_value q)
+              | Rsq (_, r) -> Some (rsq_value r)
+              | Bv (_, b) -> Some (bv_value b)
+              | Rsn r -> Some (rsn_value r)
+              | Rsw r -> Some (rsw_value r)
+              | Da (_, d) -> Some (da_value d)
+              | Qwt (_, _, t) -> Some (qwt_value t !cur_pfs)
+              | Hq (_, _, t) -> Some (hq_value t !cur_pfs)
+              | Wt (_, _, t) -> Some (wt_value t)
+              | _ -> None in
+            match st with
+            | None -> hex_of out
+            | Some sv ->
+              let mine = encode t sv in
+              let rec diff i a b = match a, b with
+                | [], [] -> None
+                | x :: a', y :: b' -> if N.eqb x y then diff (i + 1) a' b' else Some (i, nlen_int x, nlen_int y)
+                | x :: _, [] -> Some (i, nlen_int x, -1)
+                | [], y :: _ -> Some (i, -1, nlen_int y) in
+              (match diff 0 mine bytes with
+               | None -> hex_of mine
+               | Some (i, m, r) -> Printf.sprintf "Vstate-differs-at-byte-%d(model=%d,impl=%d,model-len=%d,impl-len=%d)" i m r (List.length mine) nb)
+          end
+        | Some (_, _ :: _) -> "Vschema-trailing-bytes"
+        | None -> "Vschema-decode-failed"))
   | "FN" :: "selword" :: w :: k :: _ -> sv sn (select_in_word (n_of_string w) (n_of_string k))
   | "FN" :: "selword128" :: w :: k :: _ -> sv sn (select_in_word_u128 (n_of_string w) (n_of_string k))
   | "FN" :: "popcnt" :: n :: ws ->
